@@ -137,6 +137,69 @@ pub fn diag_violations(o: &Outcome) -> Vec<Violation> {
     v
 }
 
+/// "Every diagnostic renders (its source locations are valid)": each `┌─ FILE:LINE:COL` header must
+/// name a file of the sandbox (or a `<builtin …>` pseudo-file), LINE must exist in it, COL must lie
+/// within the line, and every quoted source line `N │ text` must be line N of that file.
+/// `files`: sandbox-relative path -> content as the command saw it.
+pub fn location_violations(o: &Outcome, files: &BTreeMap<String, Vec<u8>>) -> Vec<Violation> {
+    let mut v = vec![];
+    let text = o.stderr_str();
+    let mut cur: Option<(String, Vec<String>)> = None; // (display name, lines)
+    let expand = |l: &str| l.replace('\t', "    ");
+    for line in text.lines() {
+        let t = line.trim_start();
+        if let Some(rest) = t.strip_prefix("┌─ ") {
+            cur = None;
+            // FILE:LINE:COL (FILE may contain ':')
+            let mut it = rest.rsplitn(3, ':');
+            let col: usize = it.next().and_then(|x| x.trim().parse().ok()).unwrap_or(0);
+            let lno: usize = it.next().and_then(|x| x.trim().parse().ok()).unwrap_or(0);
+            let name = it.next().unwrap_or("").to_string();
+            if name.starts_with('<') && !name.starts_with("<SANDBOX>") {
+                continue; // builtin pseudo-file
+            }
+            let key = name.strip_prefix("<SANDBOX>/").unwrap_or(&name).trim_start_matches("./").to_string();
+            let content = match files.get(&key) {
+                Some(c) => c,
+                None => {
+                    v.push(Violation { class: "diag:location-in-unknown-file".into(), detail: format!("diagnostic points into '{}', which is not a file the command was given", name) });
+                    continue;
+                }
+            };
+            let flines: Vec<String> = String::from_utf8_lossy(content).split('\n').map(|l| l.trim_end_matches('\r').to_string()).collect();
+            if lno == 0 || lno > flines.len() {
+                v.push(Violation { class: "diag:location-line-out-of-range".into(), detail: format!("{}:{}:{} but the file has {} lines", name, lno, col, flines.len()) });
+                continue;
+            }
+            let width = flines[lno - 1].chars().count();
+            if col == 0 || col > width + 1 {
+                v.push(Violation { class: "diag:location-column-out-of-range".into(), detail: format!("{}:{}:{} but that line has {} characters", name, lno, col, width) });
+            }
+            cur = Some((name, flines));
+            continue;
+        }
+        if let Some((name, flines)) = &cur {
+            // quoted source line:  `NN │ text`
+            if let Some((num, quoted)) = line.split_once(" │ ").or_else(|| line.split_once(" │")) {
+                if let Ok(n) = num.trim().parse::<usize>() {
+                    if n == 0 || n > flines.len() {
+                        v.push(Violation { class: "diag:location-line-out-of-range".into(), detail: format!("{} quotes line {} of a {}-line file", name, n, flines.len()) });
+                        continue;
+                    }
+                    let actual = &flines[n - 1];
+                    let printable = actual.chars().all(|c| c == '\t' || (' '..='~').contains(&c));
+                    // multi-line labels prefix the text with box-drawing gutters; compare the tail
+                    if printable && !expand(quoted).trim_end().ends_with(expand(actual).trim_end()) {
+                        v.push(Violation { class: "diag:quoted-line-mismatch".into(), detail: format!("{} line {}: diagnostic shows {:?}, file has {:?}", name, n, quoted, actual) });
+                    }
+                }
+            }
+        }
+    }
+    v.truncate(3);
+    v
+}
+
 /// The observable tuple of a step, as a comparable value.
 #[derive(Clone, Debug, PartialEq, Eq)]
 pub struct Tuple {
